@@ -137,6 +137,10 @@ func driveC11(c *h.Ctx) error {
 			c11CloseRace(c)
 			return ccDrive(c, "C11", nil, "cases_C11.v", nil)
 		}
+		if cs, _ := c.Replay["case"].(map[string]any); cs != nil && cs["leg"] == "recv-window" {
+			c11RecvWindow(c)
+			return ccDrive(c, "C11", nil, "cases_C11.v", nil)
+		}
 	}
 	cases, replay, err := ccReplayCases(c)
 	if err != nil {
@@ -144,6 +148,7 @@ func driveC11(c *h.Ctx) error {
 	}
 	if !replay {
 		c11CloseRace(c)
+		c11RecvWindow(c)
 		cases = append(cases, ccGenSingle()...)
 		cases = append(cases, ccGenChains(c.Rng.Fork(11), c.Pick(150, 1500))...)
 		cases = append(cases, ccGenTriggers()...)
